@@ -345,7 +345,9 @@ done:
 	if !truncated {
 		for iter.Next() {
 			object := iter.Key().(string)
-			if matched := prefix.Match(object, &match); matched && !match.CommonPrefix {
+			// Anything left that matches means there is more to list: another
+			// key's uploads, or a common prefix this page has not reported yet.
+			if matched := prefix.Match(object, &match); matched && (!match.CommonPrefix || !seenPrefixes[match.MatchedPart]) {
 				truncated = true
 
 				// This is not especially defensive; it assumes the rest of the code works
